@@ -27,9 +27,12 @@ import (
 	"github.com/alephium/wormhole-fork/node/pkg/common"
 	eth_common "github.com/ethereum/go-ethereum/common"
 	"go.uber.org/zap"
+	"go.uber.org/zap/zaptest/observer"
 )
 
 type ghRun struct {
+	ch    chan *common.GuardianSet // guardianSetC; in updater scenarios nobody drains it, so len(ch) = values sent so far
+	logs  *observer.ObservedLogs
 	sc    int
 	trace *vhTrace
 	keys  *vhKeys
@@ -280,6 +283,37 @@ func (r *ghRun) appendHammer(a map[string]interface{}) {
 	}
 }
 
+// tick lets one tick of the real updater loop fetch from the node (GetGuardianSetsFromChain(.., current+1), then
+// updateGuardianSets, then the current set on guardianSetC) and waits for its end: a value on guardianSetC (the tick
+// went through) or a logged error (the fetch failed).  fail = "index" | "set" makes the node fail the index call /
+// the nth set call of the range.  A tick that went through is logged as the append of the sets 1..top (what the batch
+// brings is the sets from the updater's stale-or-fresh current+1 up to the chain's index, and a batch that overlaps
+// known sets has the effect of the one that starts at 1); a failed fetch must change nothing.
+func (r *ghRun) tick(a map[string]interface{}) bool {
+	switch vhStr(a, "fail") {
+	case "index":
+		r.chain.ArmFailure("getCurrentGuardianSetIndex", 1)
+	case "set":
+		r.chain.ArmFailure("getGuardianSet", vhInt(a, "nth", 1))
+	}
+	hi := r.chain.Top()
+	sent0, errs0 := len(r.ch), r.logs.Len()
+	r.chain.Permit()
+	done := ghWaitUntil(func() bool { return len(r.ch) > sent0 || r.logs.Len() > errs0 })
+	consumed := r.chain.ClearFailures()
+	if !done {
+		r.trace.Emit(r.sc, "TickTimeout", map[string]interface{}{"hi": hi}, nil)
+		return false
+	}
+	if len(r.ch) > sent0 {
+		r.trace.Emit(r.sc, "AppendCall", map[string]interface{}{"p": "t", "lo": 1, "hi": hi, "tick": true, "node_failures": consumed}, nil)
+		r.trace.Emit(r.sc, "AppendRet", map[string]interface{}{"p": "t"}, r.snapshot())
+	} else {
+		r.trace.Emit(r.sc, "TickFailed", map[string]interface{}{"node_failures": consumed}, r.snapshot())
+	}
+	return true
+}
+
 // waitUntil polls pred for at most 5 s.
 func ghWaitUntil(pred func() bool) bool {
 	deadline := time.Now().Add(5 * time.Second)
@@ -332,23 +366,73 @@ func ghRunScenario(trace *vhTrace, keys *vhKeys, sc vhScenario) {
 	n0 := vhInt(init, "n0", 1)
 	chain := exNewChain(keys, vhList(init, "chain"), vhInt(init, "top", 0), up)
 	defer chain.Close()
-	ch := make(chan *common.GuardianSet, 64)
+	updater := vhBool(init, "updater")
+	ch := make(chan *common.GuardianSet, 4096)
 	stop := make(chan struct{})
-	go func() {
-		for {
-			select {
-			case <-ch:
-			case <-stop:
-				return
+	r := &ghRun{sc: sc.ID, trace: trace, keys: keys, chain: chain, ch: ch}
+	if !updater {
+		go func() {
+			for {
+				select {
+				case <-ch:
+				case <-stop:
+					return
+				}
 			}
-		}
-	}()
+		}()
+	}
 	defer close(stop)
-	r := &ghRun{sc: sc.ID, trace: trace, keys: keys, chain: chain}
+	core, logs := observer.New(zap.ErrorLevel)
+	r.logs = logs
+	addr := eth_common.HexToAddress("0x0290FB167208Af455bB137780163b7B7a9a10C16")
 	trace.Emit(r.sc, "Reset", nil, nil)
-	trace.Emit(r.sc, "Init", exChainLine(chain, n0, 1, up), nil)
 	initial := append([]*common.GuardianSet{}, chain.sets[:n0]...)
-	r.gs = NewGuardianSets(initial, chain.url, zap.NewNop(), time.Hour, eth_common.HexToAddress("0x0290FB167208Af455bB137780163b7B7a9a10C16"), ch)
+	if vhBool(init, "startup") {
+		// main.go's start: the initial list is whatever GetGuardianSetsFromChain(.., 0) returns -- the specification
+		// says: the sets 0..top of the chain
+		n0 = chain.Top() + 1
+		var err error
+		var pv interface{}
+		func() {
+			defer func() { pv = recover() }()
+			ctx, cancel := context.WithTimeout(context.Background(), 5*time.Second)
+			defer cancel()
+			initial, err = GetGuardianSetsFromChain(ctx, chain.url, addr, 0)
+		}()
+		if pv != nil {
+			trace.Emit(r.sc, "Init", exChainLine(chain, n0, 1, up), nil)
+			trace.Emit(r.sc, "Panic", map[string]interface{}{"call": "GetGuardianSetsFromChain", "value": fmt.Sprint(pv)}, nil)
+			return
+		}
+		if err != nil || len(initial) == 0 {
+			trace.Emit(r.sc, "Init", exChainLine(chain, n0, 1, up), nil)
+			trace.Emit(r.sc, "StartupFailed", map[string]interface{}{"err": fmt.Sprint(err), "n": len(initial)}, nil)
+			return
+		}
+	}
+	trace.Emit(r.sc, "Init", exChainLine(chain, n0, 1, up), nil)
+	tickEvery := time.Hour
+	if updater {
+		tickEvery = time.Millisecond
+	}
+	var pv interface{}
+	func() {
+		defer func() { pv = recover() }()
+		r.gs = NewGuardianSets(initial, chain.url, zap.New(core), tickEvery, addr, ch)
+	}()
+	if pv != nil {
+		trace.Emit(r.sc, "Panic", map[string]interface{}{"call": "NewGuardianSets", "value": fmt.Sprint(pv)}, nil)
+		return
+	}
+	trace.Emit(r.sc, "State", map[string]interface{}{}, r.snapshot())
+	if updater {
+		// the REAL periodic updater (updateGuardianSet loop, 1 ms tick); its fetches wait at the node for a permit
+		chain.Gate(true)
+		ctx, cancel := context.WithCancel(context.Background())
+		defer cancel()
+		defer chain.Gate(false)
+		r.gs.UpdateGuardianSet(ctx)
+	}
 	for _, st := range sc.Steps {
 		switch st.Ev {
 		case "Grow":
@@ -373,6 +457,10 @@ func ghRunScenario(trace *vhTrace, keys *vhKeys, sc vhScenario) {
 			trace.Emit(r.sc, "AppendRet", a, r.snapshot())
 		case "HeldLookup":
 			r.heldLookup(st.A)
+		case "Tick":
+			if !r.tick(st.A) {
+				return
+			}
 		case "Hammer":
 			r.hammer(st.A)
 		case "AppendHammer":
